@@ -131,6 +131,14 @@ def multi_scenarios():
             sc[name] = base(evs, se, dict(fshocks=[
                 dict(target=ta, session=sa, triggerTime=0 if sa != sb else 1, length=2, rate=0.5, enabled=True),
                 dict(target=tb, session=sb, triggerTime=1, length=2, rate=-0.25, enabled=True)]), name)
+    # a shock whose window is empty (shockTimeLength 0): it never acts
+    for target in ("M0", "M1"):
+        for sess in (0, 1):
+            name = "fshock_empty_window:%s-s%d" % (target, sess)
+            evs = {"SH": {"class": "FundamentalPriceShock", "target": target, "triggerTime": 1, "priceChangeRate": 0.5, "shockTimeLength": 0}}
+            se = [[], []]
+            se[sess] = ["SH"]
+            sc[name] = base(evs, se, dict(fshocks=[dict(target=target, session=sess, triggerTime=1, length=0, rate=0.5, enabled=True)]), name)
     # the same event entry listed under two sessions: it acts in both, each time counted from that session's start
     for kind in ("f", "m"):
         for target in ("M0", "M1"):
